@@ -246,11 +246,22 @@ func (l *lowerer) message(m *Message, scope string, p []int32) *descriptorpb.Des
 	d.OneofDecl = append(d.OneofDecl, synth...)
 	// user nested messages come first in index order for comments; map entries were appended
 	// above, so put the user's nested types before them to keep comment paths simple.
+	// With EntriesFirst the message is laid out as protoc lays out `message M { map<..> f = 1; message N {..} }`:
+	// the synthetic entry types of the map fields precede the declared nested types.
+	entries := d.NestedType
+	off := 0
+	if m.EntriesFirst {
+		off = len(entries)
+	}
 	var nested []*descriptorpb.DescriptorProto
 	for i, n := range m.Nested {
-		nested = append(nested, l.message(n, full, append(append([]int32(nil), p...), 3, int32(i))))
+		nested = append(nested, l.message(n, full, append(append([]int32(nil), p...), 3, int32(off+i))))
 	}
-	d.NestedType = append(nested, d.NestedType...)
+	if m.EntriesFirst {
+		d.NestedType = append(entries, nested...)
+	} else {
+		d.NestedType = append(nested, entries...)
+	}
 	for i, e := range m.Enums {
 		d.EnumType = append(d.EnumType, l.enum(e, append(append([]int32(nil), p...), 4, int32(i))))
 	}
